@@ -160,6 +160,16 @@ func runC03(c *Ctx) {
 		c.FuncsSeen[fname(f)] = true
 	}
 
+	// ---- W7 -----------------------------------------------------------------
+	// "An extraction that reports success has left on disk no more than …": the accounting leaves out what a later step is
+	// meant to remove (a nested archive once extracted) or refuse. A failure of such a step that is assigned to a variable
+	// nothing reads — a shadow of the error result, a value overwritten by the next call — lets the extraction report
+	// success with the uncounted remains on disk.
+	c.rule("W7", "in the extraction functions an error assigned to a variable is read before the variable is overwritten or goes out of scope", 20)
+	for _, f := range []*ssa.Function{unzip, uzf, nested, nzr} {
+		withAnon(f, func(g *ssa.Function) { c.errOverwrittenRule("W7", g) })
+	}
+
 	// ---- W1 -----------------------------------------------------------------
 	c.c03Guarded(uzf, "W1", "GetMaxFileSize", false, func(in ssa.Instruction) bool {
 		cl, ok := in.(*ssa.Call)
